@@ -5,6 +5,7 @@
 (*                                                                         *)
 (*   Read     adapter.read(&mut cmd_buf[read_offset..]) - the ENVIRONMENT  *)
 (*            chooses how many bytes (0..free space) and which bytes       *)
+(*            (ReadStart, one ReadByte per delivered byte, ReadEnd)        *)
 (*   Scan     next terminator among the newly read bytes: run on           *)
 (*            cmd_buf[proc_offset..=terminator], update the offsets;       *)
 (*            no terminator left: compact, test for overflow, read again   *)
@@ -56,16 +57,20 @@ IdealFeed(st, bs, i) == IF i > Len(bs) THEN st ELSE IdealFeed(IdealByte(st, bs[i
 Init == /\ buf = <<>> /\ proc = 0 /\ rd = 0 /\ rend = 0 /\ pc = "read" /\ hdr = <<>> /\ res = <<>>
         /\ ipend = <<>> /\ ipath = <<>> /\ lag = <<>> /\ total = 0 /\ bad = FALSE /\ result = "none"
 
-SeqsOf(k) == [1..k -> Sigma]
-Read == /\ pc = "read" /\ ~bad
-        /\ \E k \in 0..(N - rd) :
-             /\ total + k <= MaxLen /\ (k = 0 => total < MaxLen)
-             /\ \E bs \in SeqsOf(k) :
-                  LET st == IdealFeed([pend |-> ipend, path |-> ipath, lag |-> lag], bs, 1) IN
-                  /\ buf' = SubSeq(buf, 1, rd) \o bs
-                  /\ rend' = rd + k /\ total' = total + k
-                  /\ ipend' = st.pend /\ ipath' = st.path /\ lag' = st.lag
-        /\ pc' = "scan" /\ UNCHANGED <<proc, rd, hdr, res, bad, result>>
+\* adapter.read: the environment delivers any number of bytes (0 .. free space), any bytes.
+\* One read is modelled as ReadStart, then one ReadByte per delivered byte, then ReadEnd, so that
+\* TLC never has to build the set of all chunks; nothing of the implementation runs in between.
+ReadStart == /\ pc = "read" /\ ~bad /\ total < MaxLen
+             /\ pc' = "reading" /\ rend' = rd /\ buf' = SubSeq(buf, 1, rd)
+             /\ UNCHANGED <<proc, rd, hdr, res, ipend, ipath, lag, total, bad, result>>
+ReadByte == /\ pc = "reading" /\ rend < N /\ total < MaxLen
+            /\ \E b \in Sigma :
+                 LET st == IdealByte([pend |-> ipend, path |-> ipath, lag |-> lag], b) IN
+                 /\ buf' = Append(buf, b) /\ rend' = rend + 1 /\ total' = total + 1
+                 /\ ipend' = st.pend /\ ipath' = st.path /\ lag' = st.lag
+            /\ UNCHANGED <<proc, rd, pc, hdr, res, bad, result>>
+ReadEnd == /\ pc = "reading" /\ pc' = "scan"
+           /\ UNCHANGED <<buf, proc, rd, rend, hdr, res, ipend, ipath, lag, total, bad, result>>
 
 Scan ==
   /\ pc = "scan"
@@ -99,11 +104,11 @@ Write == /\ pc = "write" /\ pc' = "flush"
 Flush == /\ pc = "flush" /\ pc' = "scan" /\ res' = <<>>
          /\ UNCHANGED <<buf, proc, rd, rend, hdr, ipend, ipath, lag, total, bad, result>>
 \* the transport fails: process returns that error at once
-EnvFail == /\ pc \in {"read", "write", "flush"} /\ ModelFaults
+EnvFail == /\ pc \in {"read", "reading", "write", "flush"} /\ ModelFaults /\ (pc = "reading" => rend = rd)
            /\ pc' = "done" /\ result' = "error"
            /\ UNCHANGED <<buf, proc, rd, rend, hdr, res, ipend, ipath, lag, total, bad>>
 
-Next == Read \/ Scan \/ Write \/ Flush \/ EnvFail
+Next == ReadStart \/ ReadByte \/ ReadEnd \/ Scan \/ Write \/ Flush \/ EnvFail
 Spec == Init /\ [][Next]_vars
 
 OffsetsOk == /\ 0 <= proc /\ proc <= rd /\ rd <= rend /\ rend <= N
